@@ -280,3 +280,318 @@ pub fn check_c13(scn: &Scenario) -> Checked {
     stats.calls = n_values as u64;
     Checked { violations, stats, harness_error: None }
 }
+
+// ---------------------------------------------------------------------------------------------
+// C09: only the original verifies: once, on its thread, with no clones alive
+
+pub fn gen_c09(base_seed: u64, batch: &str, run: u64, rng: &mut Rng) -> Scenario {
+    let mut co = CfgOpts::default();
+    co.max_methods = 2;
+    co.max_patterns = 2;
+    co.with_mut = false;
+    co.nested_calls = false;
+    co.ordered_pct = 20;
+    co.resp_weights = [60, 5, 0, 25, 4, 3, 3];
+    let mut cfg = gen_config(rng, &co);
+    for (_, p) in cfg.default_progs.iter_mut() {
+        p.calls.clear();
+    }
+    for (_, p) in cfg.real_progs.iter_mut() {
+        p.calls.clear();
+    }
+    cfg.specials = vec![Special::LendClone];
+    let st = Steer::new(&cfg);
+    let n_threads = rng.range(1, 3);
+    let n_events = rng.range(2, 12);
+    let mut threads: Vec<Vec<Op>> = vec![vec![]; n_threads];
+    // rough model of which slots hold an instance (ops on empty slots are allowed but rare)
+    let mut live: Vec<u8> = vec![0];
+    let mut next_slot = 1u8;
+    let mut original_gone = false;
+    for _ in 0..n_events {
+        let t = rng.usize(n_threads);
+        let pick_slot = |rng: &mut Rng, live: &Vec<u8>| if live.is_empty() || rng.chance(1, 15) { rng.below(5) as u8 } else { *rng.pick(live) };
+        match rng.weighted(&[22, 18, 30, 6, 4, 4, 10]) {
+            0 => {
+                if (next_slot as usize) < crate::world::N_SLOTS - 1 {
+                    let src = pick_slot(rng, &live);
+                    threads[t].push(Op::Clone { src, dst: next_slot });
+                    live.push(next_slot);
+                    next_slot += 1;
+                }
+            }
+            1 => {
+                // drop a clone (sometimes the original)
+                let clones: Vec<u8> = live.iter().copied().filter(|s| *s != 0).collect();
+                let slot = if !clones.is_empty() && rng.chance(5, 6) { *rng.pick(&clones) } else { pick_slot(rng, &live) };
+                threads[t].push(Op::Drop { slot });
+                live.retain(|s| *s != slot);
+                original_gone |= slot == 0;
+            }
+            2 => {
+                let slot = pick_slot(rng, &live);
+                let (m, x, y) = match rng.weighted(&[50, 15, 15, 20]) {
+                    0 if !st.flat.patterns.is_empty() => {
+                        let p = rng.pick(&st.flat.patterns).clone();
+                        let (x, y) = st.args_for(rng, p.uid).unwrap_or((rng.below(4) as u8, 0));
+                        (p.m, x, y)
+                    }
+                    1 => (M::B0, rng.below(4) as u8, 0), // provided method: creates the internal helper clone
+                    2 => (M::LendClone, 0, 0),           // make_ref(self.clone())
+                    _ => (*rng.pick(PLAIN_REF), rng.below(4) as u8, rng.below(4) as u8),
+                };
+                threads[t].push(Op::Call { slot, m, x, y, catch: true, fault: None, keep: false });
+            }
+            3 => {
+                let slot = pick_slot(rng, &live);
+                threads[t].push(Op::Verify { slot });
+                live.retain(|s| *s != slot);
+                original_gone |= slot == 0;
+            }
+            4 => {
+                let slot = if rng.chance(3, 4) { 0 } else { pick_slot(rng, &live) };
+                threads[t].push(Op::Report { slot });
+                live.retain(|s| *s != slot);
+                original_gone |= slot == 0;
+            }
+            5 => {
+                let slot = if rng.chance(2, 3) { 0 } else { pick_slot(rng, &live) };
+                threads[t].push(Op::NoVerifyInDrop { slot });
+            }
+            _ => {
+                if n_threads > 1 && t == 0 {
+                    threads[0].push(Op::Wait { mask: 0xfe });
+                }
+            }
+        }
+    }
+    // most runs end with the original being finished one way or another
+    if !original_gone && rng.chance(5, 6) {
+        let t = if rng.chance(4, 5) { 0 } else { rng.usize(n_threads) };
+        if t == 0 && n_threads > 1 && rng.chance(2, 3) {
+            threads[0].push(Op::Wait { mask: 0xfe });
+            // tidy up the clones first in most runs
+            if rng.chance(3, 4) {
+                for s in live.iter().copied().filter(|s| *s != 0) {
+                    threads[0].push(Op::Drop { slot: s });
+                }
+            }
+        }
+        threads[t].push(match rng.weighted(&[50, 30, 20]) {
+            0 => Op::Drop { slot: 0 },
+            1 => Op::Verify { slot: 0 },
+            _ => Op::Report { slot: 0 },
+        });
+    }
+    Scenario {
+        prop: "C09".into(),
+        base_seed,
+        run,
+        batch: batch.into(),
+        config: cfg,
+        config2: None,
+        threads,
+        sched: gen_sched(rng, true),
+        knobs: vec![],
+    }
+}
+
+#[derive(Clone, Debug)]
+struct Inst {
+    created_start: u64,
+    created_end: u64,
+    /// (start, end) of the operation that consumed it
+    gone: Option<(u64, u64)>,
+}
+
+pub fn check_c09(scn: &Scenario) -> Checked {
+    let res = world::run(scn);
+    let mut stats: RunStats = base_stats(scn, &res);
+    if res.timed_out || res.sched.deadlock {
+        return Checked { violations: vec![], stats, harness_error: Some("run timed out or deadlocked".into()) };
+    }
+    if let Some(e) = &res.build_error {
+        return Checked { violations: vec![], stats, harness_error: Some(format!("mock construction failed: {e}")) };
+    }
+    let mut violations: Vec<Violation> = vec![];
+    let flat = scn.config.flatten();
+    let log = &res.log;
+    // resolve which instance every operation touched by replaying slot events in time order
+    #[derive(Clone)]
+    enum SlotEv {
+        Put { slot: u8, inst: usize },
+        Take { slot: u8, op: usize },
+    }
+    let mut insts: Vec<Inst> = vec![Inst { created_start: 0, created_end: 0, gone: None }];
+    let mut events: Vec<(u64, u8, SlotEv)> = vec![];
+    let op_of = |o: &OpRec| scn.threads.get(o.thread as usize).and_then(|t| t.get(o.index as usize)).cloned();
+    for (i, o) in log.ops.iter().enumerate() {
+        if matches!(o.result, OpResult::Skipped(_)) {
+            continue;
+        }
+        match op_of(o) {
+            Some(Op::Clone { dst, .. }) if matches!(o.result, OpResult::Done) => {
+                insts.push(Inst { created_start: o.start_step, created_end: o.end_step, gone: None });
+                events.push((o.end_step, 0, SlotEv::Put { slot: dst, inst: insts.len() - 1 }));
+            }
+            Some(Op::Drop { slot }) | Some(Op::Verify { slot }) | Some(Op::Report { slot }) => {
+                events.push((o.start_step, 1, SlotEv::Take { slot, op: i }));
+            }
+            Some(Op::NoVerifyInDrop { slot }) if !matches!(o.result, OpResult::Done) => {
+                events.push((o.start_step, 1, SlotEv::Take { slot, op: i }));
+            }
+            _ => {}
+        }
+    }
+    events.sort_by_key(|e| (e.0, e.1));
+    let mut slot_map: BTreeMap<u8, usize> = BTreeMap::new();
+    slot_map.insert(0, 0);
+    let mut consumed_by: BTreeMap<usize, usize> = BTreeMap::new(); // op index -> instance
+    for (_, _, e) in &events {
+        match e {
+            SlotEv::Put { slot, inst } => {
+                slot_map.insert(*slot, *inst);
+            }
+            SlotEv::Take { slot, op } => {
+                if let Some(inst) = slot_map.remove(slot) {
+                    consumed_by.insert(*op, inst);
+                    let o = &log.ops[*op];
+                    insts[inst].gone = Some((o.start_step, o.end_step));
+                }
+            }
+        }
+    }
+    let mut verify_in_drop = true;
+    let mut verified = false;
+    let mut ops_sorted: Vec<(usize, &OpRec)> = log.ops.iter().enumerate().collect();
+    ops_sorted.sort_by_key(|(_, o)| o.start_step);
+    for (i, o) in ops_sorted {
+        if matches!(o.result, OpResult::Skipped(_)) {
+            continue;
+        }
+        let Some(op) = op_of(o) else { continue };
+        let is_original = o.original;
+        match (&op, is_original) {
+            (Op::Clone { .. }, _) => {
+                if !matches!(o.result, OpResult::Done) {
+                    violations.push(v("C09", "clone-never-panics", "clone", format!("cloning panicked: {:?}", o.result)));
+                }
+            }
+            (Op::Drop { .. }, Some(false)) => {
+                if !matches!(o.result, OpResult::Quiet) {
+                    violations.push(v("C09", "dropping-a-clone-is-silent", "drop-clone", format!("dropping a clone: {:?}", o.result)));
+                }
+            }
+            (Op::Verify { .. }, Some(false)) | (Op::NoVerifyInDrop { .. }, Some(false)) => {
+                let ok = matches!(&o.result, OpResult::Panicked(m) if m.contains("cloned instance"));
+                if !ok {
+                    violations.push(v(
+                        "C09",
+                        "verify-on-clone-panics",
+                        if matches!(op, Op::Verify { .. }) { "verify" } else { "no_verify_in_drop" },
+                        format!("{op:?} on a clone must panic, got {:?}", o.result),
+                    ));
+                }
+            }
+            (Op::NoVerifyInDrop { .. }, Some(true)) => {
+                if matches!(o.result, OpResult::Done) {
+                    verify_in_drop = false;
+                } else {
+                    violations.push(v("C09", "no-verify-in-drop-on-original", "no_verify_in_drop", format!("no_verify_in_drop() on the original: {:?}", o.result)));
+                }
+            }
+            (Op::Drop { .. } | Op::Verify { .. } | Op::Report { .. }, Some(true)) => {
+                let Some(pre) = &o.pre else { continue };
+                if matches!(op, Op::Drop { .. }) && !verify_in_drop {
+                    if !matches!(o.result, OpResult::Quiet) {
+                        violations.push(v("C09", "no-verify-in-drop-disables", "drop", format!("drop after no_verify_in_drop(): {:?}", o.result)));
+                    }
+                    *stats.probes.entry("drop_after_no_verify_in_drop".into()).or_default() += 1;
+                    continue;
+                }
+                if verified {
+                    violations.push(v("C09", "verifies-once", "twice", format!("a second verification ran: {op:?} -> {:?}", o.result)));
+                    continue;
+                }
+                verified = true;
+                // clone population relative to this operation's window
+                let (vs, ve) = (o.start_step, o.end_step);
+                let mut any_def_alive = false;
+                let mut all_def_dead = true;
+                for (k, c) in insts.iter().enumerate().skip(1) {
+                    let _ = k;
+                    let def_dead = c.created_start > ve || matches!(c.gone, Some((_, ge)) if ge < vs);
+                    let def_alive = c.created_end < vs && !matches!(c.gone, Some((gs, _)) if gs <= ve);
+                    any_def_alive |= def_alive;
+                    all_def_dead &= def_dead;
+                }
+                let wrong_thread = o.thread != 0;
+                let live_panic = matches!(&o.result, OpResult::Panicked(m) if m.contains("clones still alive"));
+                let thread_panic = matches!(&o.result, OpResult::Panicked(m) if m.contains("different thread"));
+                let key = match op {
+                    Op::Drop { .. } => "drop",
+                    Op::Verify { .. } => "verify",
+                    _ => "report",
+                };
+                if any_def_alive {
+                    *stats.probes.entry("verified_with_clone_alive".into()).or_default() += 1;
+                    if !live_panic {
+                        violations.push(v("C09", "live-clone-panic-required", key, format!("{op:?} of the original on thread {} while a clone is definitely alive must panic about live clones: {:?}", o.thread, o.result)));
+                    }
+                    continue;
+                }
+                if !all_def_dead {
+                    *stats.probes.entry("clone_drop_raced_with_verification".into()).or_default() += 1;
+                    // either outcome is allowed while a clone's drop overlaps the verification, and the
+                    // clone may still have been used after the pre-state was read: nothing to compare
+                    continue;
+                } else if live_panic {
+                    violations.push(v("C09", "live-clone-panic-forbidden", key, format!("every clone had been dropped before {op:?} started (internal helpers and lent values are not clones), yet: {:?}", o.result)));
+                    continue;
+                }
+                if wrong_thread {
+                    *stats.probes.entry("verified_on_foreign_thread".into()).or_default() += 1;
+                    if !thread_panic {
+                        violations.push(v("C09", "foreign-thread-panic-required", key, format!("{op:?} of the original on thread {} (creator is thread 0): {:?}", o.thread, o.result)));
+                    }
+                    continue;
+                }
+                if thread_panic {
+                    violations.push(v("C09", "foreign-thread-panic-forbidden", key, format!("verified on the creator thread, yet: {:?}", o.result)));
+                    continue;
+                }
+                // ordinary verdict: recorded errors, else the counts
+                let (p, m) = crate::oracle::unmet(&flat, pre);
+                let expect_fail = !pre.errors.is_empty() || !p.is_empty() || !m.is_empty();
+                let failed = matches!(o.result, OpResult::Panicked(_) | OpResult::ExitCode(false));
+                *stats.probes.entry(format!("verdict_checked_{key}")).or_default() += 1;
+                if !pre.errors.is_empty() {
+                    *stats.probes.entry("verdict_with_recorded_errors".into()).or_default() += 1;
+                }
+                if matches!(op, Op::Report { .. }) && matches!(o.result, OpResult::Panicked(_)) {
+                    violations.push(v("C09", "report-returns-exit-code", key, format!("report() must map the verdict to an exit code, it panicked: {:?}", o.result)));
+                } else if expect_fail != failed {
+                    violations.push(v(
+                        "C09",
+                        "verdict",
+                        key,
+                        format!("{op:?}: recorded errors {:?}, counts {:?} => should {}, but {:?}", pre.errors, pre.counts, if expect_fail { "fail" } else { "pass" }, o.result),
+                    ));
+                }
+            }
+            _ => {}
+        }
+        let _ = i;
+    }
+    if log.calls.iter().any(|c| c.m == M::B0 && c.prog.is_some()) {
+        *stats.probes.entry("helper_clone_created_by_default_method".into()).or_default() += 1;
+    }
+    if log.calls.iter().any(|c| c.m == M::LendClone && matches!(c.outcome, Some(Outcome::Value(_)))) {
+        *stats.probes.entry("clone_of_self_lent_via_make_ref".into()).or_default() += 1;
+    }
+    if insts.len() > 2 {
+        *stats.probes.entry("two_or_more_clones".into()).or_default() += 1;
+    }
+    stats.nontrivial = log.ops.iter().filter(|o| !matches!(o.result, OpResult::Skipped(_))).count() >= 2;
+    Checked { violations, stats, harness_error: None }
+}
